@@ -125,6 +125,19 @@ func genBmCase(t *rapid.T, maxOps int) bmCase {
 			}
 			continue
 		}
+		if op.Kind == "tick" && rapid.IntRange(0, 5).Draw(t, "lagging") == 0 {
+			// an outgoing object, many fxcore blocks without any event, then an event that reports a height below the previous one
+			mk := func(kind string, n int64) bmOp {
+				o := op
+				o.Kind, o.N = kind, n
+				return o
+			}
+			b := mk("batch", 0)
+			b.Amt, b.Fee = 0, 1
+			c.Ops = append(c.Ops, mk("bridgecall", 0), mk("send", 0), b, mk("fxblocks", rapid.SampledFrom([]int64{1000, 1000, 20}).Draw(t, "lagGap")),
+				mk("tick", -int64(rapid.SampledFrom([]int{10, 14, 509}).Draw(t, "lagBy"))))
+			continue
+		}
 		if op.Kind == "flood" {
 			// more queued transfers of one token than a batch takes (the batch size is 100), then a batch
 			k := rapid.IntRange(99, 103).Draw(t, "flood")
@@ -186,6 +199,8 @@ type bmCall struct {
 }
 
 type bmState struct {
+	proven map[string]uint64 // per chain: highest external height carried by an observed event (model side)
+	lag    uint64            // the next observed event reports a height this much below the external chain's own height
 	f              *sim.Fixture
 	ctx            sdk.Context
 	which          string
@@ -378,7 +393,12 @@ func (s *bmState) ledger(ctx sdk.Context, desc string) *Failure {
 
 // observe has all three oracles vote; returns the event nonce; the claim is observed or the step fails.
 func (s *bmState) observe(ctx sdk.Context, ch string, claim crosschaintypes.ExternalClaim) (uint64, error) {
-	return s.f.Observe(ctx, ch, claim, s.extH[ch])
+	h := s.extH[ch] - s.lag
+	n, err := s.f.Observe(ctx, ch, claim, h)
+	if err == nil && h > s.proven[ch] {
+		s.proven[ch] = h // the highest external height any observed event carried: what is proven about the external chain
+	}
+	return n, err
 }
 
 // observeFailure turns a failed admissible observation into a failure: a handler panic is a violation
@@ -489,7 +509,7 @@ func (s *bmState) cmpTx(ch string, tx *crosschaintypes.OutgoingTransferTx, m *bm
 func runBridgeMachine(c bmCase, which string, rec *ev.Recorder) *Failure {
 	f := base()
 	ctx, _ := f.Ctx.CacheContext()
-	s := &bmState{f: f, which: which, txs: map[string]*bmTx{}, batches: map[string]*bmBatch{}, calls: map[string]*bmCall{}, extH: map[string]uint64{},
+	s := &bmState{f: f, which: which, txs: map[string]*bmTx{}, batches: map[string]*bmBatch{}, calls: map[string]*bmCall{}, extH: map[string]uint64{}, proven: map[string]uint64{},
 		lastBatchExec: map[string]uint64{}, pending: map[string][]uint64{}, deposits: map[int]*big.Int{}, withdrawn: map[int]*big.Int{}, initial: map[int]*big.Int{}, labels: map[string]bool{}, observedHeight: map[string]bool{}, outstanding: map[string]int64{}, liq0: map[string]int64{}, depCh: map[string]int64{}, wdCh: map[string]int64{}, erc20Pool0: map[string]int64{}, erc20PoolLast: map[string]int64{}, everParked: map[string]int64{}, rec: rec}
 	gov := sim.GovAddr.String()
 	for i, ch := range baseChains {
@@ -503,6 +523,7 @@ func runBridgeMachine(c bmCase, which string, rec *ev.Recorder) *Failure {
 			return failf("harness", "params: %v", r.Err)
 		}
 		s.extH[ch] = k.GetLastObservedBlockHeight(ctx).ExternalBlockHeight
+		s.proven[ch] = s.extH[ch]
 		s.observedHeight[ch] = true
 		if i < len(c.ResetHeight) && c.ResetHeight[i] {
 			cur := ctx.KVStore(f.App.GetKey(ch)).Get(crosschaintypes.LastObservedBlockHeightKey)
@@ -845,6 +866,13 @@ func runBridgeMachine(c bmCase, which string, rec *ev.Recorder) *Failure {
 				target := ""
 				if op.Flag {
 					target = fmt.Sprintf("%x", "erc20")
+				} else if op.Idx%3 == 1 {
+					// a deposit addressed onwards to an IBC route. This fixture has no open channel, so the hand-off cannot happen:
+					// the claim either stays pending (its execution is refused as a whole) or leaves the coins with the receiver
+					if _, open := f.App.IBCKeeper.ChannelKeeper.GetChannel(ctx, "transfer", "channel-0"); !open {
+						target = fmt.Sprintf("%x", "px/transfer/channel-0")
+						s.labels["deposit-ibc-target"] = true
+					}
 				}
 				claim = &crosschaintypes.MsgSendToFxClaim{TokenContract: t.Contracts[ch], Amount: sdkmath.NewInt(op.Amt), Sender: sim.ExtAddrN(ch, "extuser", op.Idx), Receiver: acc.Acc().String(), TargetIbc: target}
 			} else {
@@ -986,6 +1014,16 @@ func runBridgeMachine(c bmCase, which string, rec *ev.Recorder) *Failure {
 			noteObserved(ch)
 		case "tick":
 			dh := op.N
+			if dh <= -10 {
+				// a lagging report: the event carries a height below the external chain's own height (and below earlier events);
+				// it proves nothing new about the external chain
+				s.lag = uint64(-dh - 9)
+				if s.lag >= s.extH[ch] {
+					s.lag = s.extH[ch] - 1
+				}
+				s.labels["lagging-event-height"] = true
+				dh = 0
+			}
 			if dh < 0 {
 				// jump next to the smallest open timeout on this chain
 				var tos []uint64
@@ -1014,7 +1052,9 @@ func runBridgeMachine(c bmCase, which string, rec *ev.Recorder) *Failure {
 			}
 			s.extH[ch] += uint64(dh)
 			claim := &crosschaintypes.MsgBridgeTokenClaim{TokenContract: sim.ExtAddrN(ch, "junk", 1000+si), Name: "Junk", Symbol: fmt.Sprintf("J%d", si), Decimals: 18}
-			if _, err := s.observe(sctx, ch, claim); err != nil {
+			_, err := s.observe(sctx, ch, claim)
+			s.lag = 0
+			if err != nil {
 				return s.observeFailure(err, desc, "height-only event")
 			}
 			s.observedHeight[ch] = true
@@ -1040,8 +1080,8 @@ func runBridgeMachine(c bmCase, which string, rec *ev.Recorder) *Failure {
 				if mb.State == "executed" || (mb.State == "cancelled" && op.Kind == "batchexec") {
 					continue // executed by this step's event, or superseded by the newer executed batch of its token
 				}
-				if which == "C06" && (!observedThisStep || post < b.BatchTimeout) {
-					return failf("C06/batch-released-early", "%s: %s batch %d (timeout %d) was cancelled although the last observed external height is %d (event observed in this step: %v)", desc, chn, b.BatchNonce, b.BatchTimeout, post, observedThisStep)
+				if which == "C06" && (!observedThisStep || s.proven[chn] < b.BatchTimeout) {
+					return failf("C06/batch-released-early", "%s: %s batch %d (timeout %d) was cancelled although the highest external height any observed event carried is %d (recorded as last observed: %d; event observed in this step: %v)", desc, chn, b.BatchNonce, b.BatchTimeout, s.proven[chn], post, observedThisStep)
 				}
 				mb.State = "cancelled"
 				for _, id := range mb.TxIDs {
@@ -1064,8 +1104,8 @@ func runBridgeMachine(c bmCase, which string, rec *ev.Recorder) *Failure {
 				if mc.State != "open" {
 					continue // settled by its own result claim in this step
 				}
-				if which == "C06" && (!observedThisStep || post < oc.Timeout) {
-					return failf("C06/call-released-early", "%s: %s bridge call %d (timeout %d) was refunded although the last observed external height is %d (event observed in this step: %v)", desc, chn, oc.Nonce, oc.Timeout, post, observedThisStep)
+				if which == "C06" && (!observedThisStep || s.proven[chn] < oc.Timeout) {
+					return failf("C06/call-released-early", "%s: %s bridge call %d (timeout %d) was refunded although the highest external height any observed event carried is %d (recorded as last observed: %d; event observed in this step: %v)", desc, chn, oc.Nonce, oc.Timeout, s.proven[chn], post, observedThisStep)
 				}
 				if mc.ResultAt != 0 && mc.ResultOK {
 					s.labels["timeout-over-parked-success"] = true
